@@ -439,17 +439,23 @@ func phiAlternatives(fn *ssa.Function, v ssa.Value, at ssa.Instruction) []altVal
 	ff := FactsOf(fn)
 	var out []altVal
 	seen := map[*ssa.Phi]bool{}
-	var walk func(v ssa.Value, fs FactSet)
-	walk = func(v ssa.Value, fs FactSet) {
+	// a value reached through nested phis carries the facts of every selecting edge on the way (`p := s; if h != -1
+	// { p = s[:h] }; if q != -1 { p = p[:q] }; return p`: the whole input is returned under h == -1 and q == -1)
+	var walk func(v ssa.Value, fs FactSet, chain bool)
+	walk = func(v ssa.Value, fs FactSet, chain bool) {
 		if ph, ok := v.(*ssa.Phi); ok && !seen[ph] {
 			seen[ph] = true
 			for i, e := range ph.Edges {
-				walk(e, ff.OnEdge(ph.Block().Preds[i], ph.Block()))
+				efs := ff.OnEdge(ph.Block().Preds[i], ph.Block())
+				if chain {
+					efs = unionFacts(fs, efs)
+				}
+				walk(e, efs, true)
 			}
 			return
 		}
 		out = append(out, altVal{v, fs})
 	}
-	walk(v, ff.At(at))
+	walk(v, ff.At(at), false)
 	return out
 }
